@@ -198,6 +198,12 @@ fn c05_unified_sequence_6() {
     sequence::<6>();
 }
 
+#[kani::proof]
+#[kani::unwind(11)]
+fn c05_unified_sequence_9() {
+    sequence::<9>();
+}
+
 /// `LineNumbersData::initialize_hunk`: the counters start at the header's start positions (first
 /// entry = old file, last entry = new file, also for merge hunk headers with 3 entries); the
 /// gutter is wide enough for every line number the hunk can display (start .. start+length-1 of
